@@ -5,6 +5,7 @@ import (
 	"fmt"
 	"os"
 	"path/filepath"
+	"sort"
 	"strconv"
 
 	"github.com/tonkeeper/tongo/boc"
@@ -486,6 +487,55 @@ func driveBlock(w *ev.Writer, name string, data []byte, stride, offset int, sh, 
 			emit("account_blocks", hx(ta[j].Value.AccountAddr)+":"+strconv.FormatUint(ta[j].Value.Lt, 10), func() ev.M {
 				return txEvent(name, "account_blocks", tr[j].C, &ta[j].Value, &tb[j].Value, true)
 			})
+		}
+	}
+	// ---- the public accessor: Block.AllTransactions() hands out one pointer per transaction of the block (sorted by lt).
+	// Its entries are set against the transaction cells of the block's tree, one to one: both lists ordered by (lt, account).
+	{
+		type rawTx struct {
+			acc string
+			lt  uint64
+			c   *boc.Cell
+		}
+		var rs []rawTx
+		for i := range abR {
+			for _, t := range abR[i].Transactions.Values() {
+				// transaction$0111 account_addr:bits256 lt:uint64 ...: read from the cell itself
+				t.C.ResetCounters()
+				_ = t.C.Skip(4)
+				ab, err1 := t.C.ReadBytes(32)
+				lt, err2 := t.C.ReadUint(64)
+				t.C.ResetCounters()
+				if err1 != nil || err2 != nil {
+					return fmt.Errorf("%s: transaction cell too short", name)
+				}
+				rs = append(rs, rawTx{hex.EncodeToString(ab), lt, t.C})
+			}
+		}
+		sort.SliceStable(rs, func(i, j int) bool { return rs[i].lt < rs[j].lt || (rs[i].lt == rs[j].lt && rs[i].acc < rs[j].acc) })
+		ord := func(ts []*tlb.Transaction) []*tlb.Transaction {
+			out := append([]*tlb.Transaction(nil), ts...)
+			sort.SliceStable(out, func(i, j int) bool {
+				return out[i].Lt < out[j].Lt || (out[i].Lt == out[j].Lt && hx(out[i].AccountAddr) < hx(out[j].AccountAddr))
+			})
+			return out
+		}
+		la, lb := ord(a.typed.AllTransactions()), ord(b.typed.AllTransactions())
+		if len(la) != len(rs) || len(lb) != len(rs) {
+			// the accessor lost or invented entries: one event no specification action accepts
+			emit("Block.AllTransactions", "count", func() ev.M {
+				return ev.M{"k": "Count", "src": name, "pos": "Block.AllTransactions", "cells_in_tree": len(rs), "entries": len(la), "entries_cached": len(lb)}
+			})
+		} else {
+			for i := range rs {
+				i := i
+				if !pick(2 * (i + 1)) {
+					continue
+				}
+				emit("Block.AllTransactions", rs[i].acc+":"+strconv.FormatUint(rs[i].lt, 10), func() ev.M {
+					return txEvent(name, "Block.AllTransactions", rs[i].c, la[i], lb[i], true)
+				})
+			}
 		}
 	}
 	// ---- in_msg_descr / out_msg_descr: the same records decoded again at other positions
